@@ -927,6 +927,7 @@ func genC11(g *G) {
 	for _, d := range specialDbcs() {
 		g.Emit("gapi %s", HexS([]byte(d)))
 		g.Tag("special")
+		g.Emit("gnode %s", HexS([]byte(d)))
 	}
 	n := g.N(40, 600)
 	for i := 0; i < n; i++ {
@@ -937,6 +938,7 @@ func genC11(g *G) {
 		d := genDbc43(g, force)
 		g.Emit("gapi %s", HexS(d.text))
 		g.Tag("random-class")
+		g.Emit("gnode %s", HexS(d.text))
 	}
 }
 
